@@ -36,6 +36,23 @@ for _li, (_lname, _loop) in enumerate((('for', 'for (a = 0; a != 3; a++) { %s }'
                                  'switch (b) { case 1: if (c) continue; b = 2; break; }', 'if (b) continue; switch (b) { case 1: continue; }',
                                  'switch (b) { case 1: switch (c) { case 2: continue; } b = 1; }', 'if (b) { if (c) break; continue; }')):
         LOOP_EXIT_PROGRAMS['loopexit_%s_%d' % (_lname, _bi)] = 'unsigned char a, b, c; void main() { %s }' % (_loop % _body)
+# every pair of comparison forms (8/16 bits, each operator, signed/unsigned) joined by && / || or used one after
+# the other, in each statement context: the local labels of the two lowerings must not collide
+COND_PROGRAMS = {}
+_conds = ['s %s 1000' % o for o in ('<=', '>', '<', '>=', '==', '!=')] + ['s <= t', 's > t', 'ss <= st', 'ss > 5', 'a <= b', 'a > b', 'a', '!s', 'sa > sb']
+_k = 0
+for _c1 in _conds:
+    for _c2 in _conds:
+        for _j in ('&&', '||', ';'):
+            if _j == ';':
+                _bodies = ['if (%s) x = 1; if (%s) x = 2;' % (_c1, _c2), 'while (%s) s += 2; while (%s) t += 3;' % (_c1, _c2),
+                           'do { a++; } while (%s); if (%s) x = 1; else x = 2;' % (_c1, _c2)]
+            else:
+                _e = '%s %s %s' % (_c1, _j, _c2)
+                _bodies = ['if (%s) x = 1;' % _e, 'while (%s) s += 2;' % _e, 'do { a++; } while (%s);' % _e, 'for (x = 0; %s; x++) a++;' % _e]
+            _b = _bodies[_k % len(_bodies)]
+            COND_PROGRAMS['cond%d' % _k] = 'unsigned short s, t; short ss, st; unsigned char a, b, x; signed char sa, sb;\nvoid main() { %s }\n' % _b
+            _k += 1
 # user labels that coincide with generated local labels (known finding F-C13-user-label, when listed)
 CLASH_PROGRAMS = {
     'clash_for': 'char a; void main() { for (a = 0; a != 3; a++) { } goto for1; for1: a = 1; }',
@@ -138,6 +155,7 @@ def run(ctx):
     srcs.update(GOTO_PROGRAMS)
     srcs.update(CLASH_PROGRAMS)
     srcs.update(LOOP_EXIT_PROGRAMS)
+    srcs.update(COND_PROGRAMS)
     bad, nfun, stats = wf_pass(ctx, srcs, levels)
     ctx.cov['programs'] = len(srcs)
     ctx.cov['distinct_nontrivial'] = stats['inline_blocks'] + stats['fixes']
